@@ -150,3 +150,61 @@ SEEDS = ["4x + 2x", "2x + 3y + x", "(x + 1) * 2", "2(x + 3) + 4x", "x * x^2 * 2"
          "2x + 3 = 7", "3x = 6", "x + 2 + 7 = 3", "7 + (x + 2) = 3", "3 = x + 2 + 7", "2(x + 1) = 8", "4 = 2x - 2", "x = y + 2x", "3x + 7 = 2 + 4x", "0x = 0",
          "(y + 4x) + 3x", "4x + 2 * 3x", "(y * 2x) * 3x", "5 + ((3 + x) + y)", "3x = 6 + 9y", "2 * ((x + 1) + 5) = 20", "x + -2y^2 = 3", "7 = 2 + 4x + y",
          "x - 2 = 3", "9 - 2x = 3", "-x = 4 + x", "x / 2 = 4", "x^2 = 4 + x^2", "y + (x + 2) = 7", "sgn(x) + 2 = 3", "5 = 3 + 2", "x + x = 2x", "1/2 x = 3"]
+
+
+def norm_term(t):
+    """plain dict form of a term as printed by TLC / produced by project.term, constants reduced"""
+    from fractions import Fraction
+    k = t["k"]
+    if k == "c":
+        if "dg" in t:
+            return {"k": "c", "dg": list(t["dg"]), "sc": t["sc"], "sg": t["sg"]}
+        if t["d"] == 0:
+            return {"k": "c", "n": 0, "d": 0}
+        f = Fraction(t["n"], t["d"])
+        return {"k": "c", "n": f.numerator, "d": f.denominator}
+    if k == "v":
+        return {"k": "v", "id": t["id"]}
+    if "c" in t and k in ("neg", "fact", "sgn", "abs"):
+        return {"k": k, "c": norm_term(t["c"])}
+    return {"k": k, "l": norm_term(t["l"]), "r": norm_term(t["r"])}
+
+
+def walk_script(job):
+    """replay one TLC-generated model session: job = (start term, [(rule, opt, path), ...], model's final term)"""
+    from .props import c08
+    start, script, final = job
+    t0 = c08.build_json(start)
+    persistent = rewrite.rules()
+    index = {(n, o): i for i, (n, o, _) in enumerate(persistent)}
+    objs = project.ObjTable()
+    prev = project.snapshot(objs, [t0])
+    tr = {"text": "model:" + str(t0), "start": project.term(t0), "steps": [], "script": [], "model_final": norm_term(final), "agree": True, "drift": ""}
+    cur = t0
+    for rule, opt, path in script:
+        node = c08.navigate(cur, path)
+        nodes = rewrite.inorder(cur)
+        k = next(i for i, n in enumerate(nodes) if n is node)
+        ri = index[(rule, opt)]
+        try:
+            ok = persistent[ri][2].can_apply_to(node)
+        except BaseException:  # noqa
+            ok = False
+        if not ok:
+            tr["agree"] = False
+            tr["drift"] = "real can_apply_to refuses the model's step %s:%s at %s" % (rule, opt, path)
+            break
+        s, new_root, prev = do_step(cur, persistent, ri, k, objs, prev)
+        tr["steps"].append(s); tr["script"].append([ri, k])
+        if new_root is None or s["outcome"] != "ok":
+            break
+        cur = new_root
+    if tr["agree"] and len(tr["steps"]) == len(script):
+        try:
+            real_final = norm_term(project.term(cur))
+            if real_final != tr["model_final"]:
+                tr["agree"] = False
+                tr["drift"] = "real result differs from the model's result"
+        except BaseException:  # noqa
+            tr["agree"] = False
+    return tr
